@@ -365,6 +365,9 @@ func runInterrupts(t *kernel.Tape, opt core.Opts, only string) *core.Outcome {
 	if only == "C10" {
 		// callbacks stay paired across interrupts: every start of a unit is followed by its
 		// end / error, also when the unit is interrupted and later resumed
+		for _, v := range nestingViolations(env.Callbacks.Events, []string{"c0"}) {
+			o.Violate("C10/inner-unit-started-outside-its-graph", v+fmt.Sprintf(" (history with %d interrupts)", nInt))
+		}
 		type hk struct{ h, name string }
 		open := map[hk]int{}
 		for _, ev := range env.Callbacks.Events {
